@@ -81,10 +81,24 @@ ld ulp_of(ld e) {
 
 template <typename T, bool I = std::is_integral<T>::value>
 struct Judge {  // integral target: exact
+    // floating source, integral target: the value is computed in the floating common type and cast (truncation toward
+    // zero); with e = the rounding error that computation may legitimately carry, got must lie between trunc(r-e), trunc(r+e)
+    template <typename R>
+    static void run_from_float(const char *op, R x, T got, const Affine &m) {
+        if (!std::isfinite((ld)x)) { g_st.skipped++; return; }
+        const ld r = m.approx((ld)x);
+        const ld a = std::fabs((ld)x * (ld)m.sn / (ld)m.sd), b = std::fabs((ld)m.on / (ld)m.od);
+        const ld big = std::max(std::max(a, b), std::max(std::fabs(r), std::fabs((ld)x)));
+        if (big > std::ldexp((ld)1, std::numeric_limits<T>::digits - 10)) { g_st.skipped++; return; }
+        const ld e = 8 * ulp_of<R>(big);
+        const ld lo = std::trunc(r - e), hi = std::trunc(r + e);
+        g_st.judged++;
+        if ((ld)got < std::min(lo, hi) || (ld)got > std::max(lo, hi)) mismatch(op, x, x, got, (T)std::trunc(r));
+    }
     template <typename R>
     static void run(const char *op, R x, T got, const Affine &m) {
         i128 r;
-        if (!std::is_integral<R>::value) { g_st.skipped++; return; }
+        if (!std::is_integral<R>::value) { run_from_float(op, x, got, m); return; }
         if (!m.exact_int((i128)x, r)) { g_st.skipped++; return; }  // true result not representable in an integral rep
         if (r < ((i128)std::numeric_limits<T>::lowest() >> 10) || r > ((i128)std::numeric_limits<T>::max() >> 10)) { g_st.skipped++; return; }
         g_st.judged++;
@@ -146,6 +160,8 @@ __attribute__((noinline)) void run_convert(long id, const char *desc, long long 
             // scaled intermediates may be formed in a finer common unit: keep 2^20 of extra head-room for integral reps
             const ld fine_ = (std::is_integral<T>::value || std::is_integral<R>::value) ? (ld)(1 << 20) * (ld)m.sd * (ld)m.od : 1;
             if (big_ * fine_ > lim_ || big_ * fine_ > limr_) { g_st.skipped++; return; }
+            // an unsigned target can only represent a non-negative result (and non-negative intermediates)
+            if (std::is_unsigned<T>::value && (r_ < 1 || (ld)x < 0 || (ld)x * (ld)m.sn / (ld)m.sd < 1)) { g_st.skipped++; return; }
         }
         auto p = au::make_quantity_point<SrcU>(x);
         T a{}, b{}, c{};
@@ -225,6 +241,63 @@ __attribute__((noinline)) void run_arith(long id, const char *desc, long long sn
             if (lt != (x < y) || eq != (x == y)) mismatch("same-unit compare", x, y, (int)lt, (int)(x < y));
         }
         MixedOps<U1, U2, R, Mixed>::run(x, y, m);
+    });
+    dump("parith", id, desc);
+}
+
+// point +- quantity across units and reps: the result's absolute position must be the point's position shifted by exactly
+// the displacement.  kn/kd = (quantity unit)/(point unit).  The position is read back as long double in the point's unit.
+template <typename V>
+std::vector<V> shift_values(u64 seed, std::true_type /*floating*/) {
+    std::vector<V> v;
+    for (int i = -40; i <= 40; ++i) { v.push_back((V)i); v.push_back((V)(i + 0.5)); v.push_back((V)(i * 0.3)); v.push_back((V)(i * 1000)); }
+    vf::Rng r(seed); for (int i = 0; i < 200; ++i) v.push_back((V)((long long)(r.next() % 2000001) - 1000000) / (V)64);
+    return v;
+}
+template <typename V>
+VF_NOSAN std::vector<V> shift_values(u64 seed, std::false_type) {
+    std::vector<V> v;
+    for (long long i = -130; i <= 130; ++i) { if (i >= 0 || std::is_signed<V>::value) { v.push_back((V)i); if (sizeof(V) > 1) v.push_back((V)(i * 100)); } }
+    if (sizeof(V) > 2) { vf::Rng r(seed); for (int i = 0; i < 200; ++i) { long long t = (long long)(r.next() % 60001) - 30000; if (t >= 0 || std::is_signed<V>::value) v.push_back((V)t); } }
+    return v;
+}
+template <typename PU, typename R1, typename QU, typename R2>
+__attribute__((noinline)) void run_shift(long id, const char *desc, long long kn, long long kd, u64 nrandom, u64 seed) {
+    using C = std::common_type_t<R1, R2>;
+    g_st.clear();
+    vf::g_inst = id;
+    (void)nrandom;
+    static std::vector<R1> xs; static std::vector<R2> ys;
+    xs = shift_values<R1>(seed, std::is_floating_point<R1>{});
+    ys = shift_values<R2>(seed + 7, std::is_floating_point<R2>{});
+    static const R1 *px; static const R2 *py; static size_t nx, ny;
+    px = xs.data(); py = ys.data(); nx = xs.size(); ny = ys.size();
+    const ld k = (ld)kn / (ld)kd;
+    vf::run_loop(0, nx * 12, [&](u64 i) {
+        const R1 x = vf::launder(px[i / 12]);
+        const R2 y = vf::launder(py[((i / 12) * 31 + (i % 12) * 17 + 3) % ny]);
+        { u64 b = 0, c = 0; memcpy(&b, &x, sizeof(R1) < 8 ? sizeof(R1) : 8); memcpy(&c, &y, sizeof(R2) < 8 ? sizeof(R2) : 8); vf::g_aux0 = b; vf::g_aux1 = c; }
+        const ld X = (ld)x, Y = (ld)y * k;
+        const ld big = std::max(std::max(std::fabs(X), std::fabs(Y)), std::max(std::fabs(X + Y), std::fabs(X - Y)));
+        // domain: every value any reasonable implementation forms (operands and results in the common unit, which may be
+        // finer by up to kd) is representable in the common rep with a 2^10 margin, and non-negative when that rep is unsigned
+        const ld lim = std::is_integral<C>::value ? std::ldexp((ld)1, std::numeric_limits<C>::digits - 10) : (ld)std::numeric_limits<C>::max() / 1024;
+        if (big * (ld)kd * (ld)(kn > kd ? kn : kd) > lim) { g_st.skipped++; return; }
+        const bool uns = std::is_unsigned<C>::value;
+        if (uns && (X < 0 || (ld)y < 0)) { g_st.skipped++; return; }
+        auto p = au::make_quantity_point<PU>(x);
+        auto d = au::make_quantity<QU>(y);
+        const ld tol = (std::is_integral<C>::value ? 0 : 8 * ulp_of<C>(big)) + 4 * ulp_of<ld>(big) ;
+        ld up = 0, up2 = 0, dn = 0;
+        VF_PHASE(vf::PH_OPERATION) { up = (p + d).template coerce_in<ld>(PU{}); up2 = (d + p).template coerce_in<ld>(PU{}); }
+        g_st.evals += 2; g_st.judged += 2;
+        if (!(std::fabs(up - (X + Y)) <= tol)) mismatch("p+d (mixed)", x, y, up, X + Y);
+        if (!(std::fabs(up2 - (X + Y)) <= tol)) mismatch("d+p (mixed)", x, y, up2, X + Y);
+        if (!uns || X - Y >= 0) {
+            VF_PHASE(vf::PH_OPERATION) { dn = (p - d).template coerce_in<ld>(PU{}); }
+            g_st.evals++; g_st.judged++;
+            if (!(std::fabs(dn - (X - Y)) <= tol)) mismatch("p-d (mixed)", x, y, dn, X - Y);
+        }
     });
     dump("parith", id, desc);
 }
